@@ -443,7 +443,10 @@ func (in *c22Inst) checkRoot(l c22Layer, quickTouch bool, st *c22Stats) error {
 		}
 		for a := 0; a < c22NAcct; a++ {
 			wantS := l.world.slots(a)
-			for _, seek := range sseeks {
+			for si, seek := range sseeks {
+				if a == c22NAcct-1 && si > 0 {
+					break // account C never has storage: one (empty) iteration suffices
+				}
 				var it StorageIterator
 				var err error
 				if kind == "fast" {
@@ -475,12 +478,18 @@ func (in *c22Inst) checkRoot(l c22Layer, quickTouch bool, st *c22Stats) error {
 	return nil
 }
 
-func (in *c22Inst) check(s *c22Stack, quickTouch bool, st *c22Stats) error {
-	for _, l := range s.layers {
+// check runs the iterators on every live root. After a structural operation (or
+// when allRoots is set) every root gets every seek position; after a new layer
+// was stacked on top only the new head does, the roots below (whose stacks are
+// unchanged and were checked completely when they were the head) are iterated
+// from the zero position only.
+func (in *c22Inst) check(s *c22Stack, quickTouch, allRoots bool, st *c22Stats) error {
+	for i, l := range s.layers {
 		if err := c22CheckTrieOrder(l.world); err != nil {
 			return err
 		}
-		if err := in.checkRoot(l, quickTouch, st); err != nil {
+		touch := quickTouch || (!allRoots && i != len(s.layers)-1)
+		if err := in.checkRoot(l, touch, st); err != nil {
 			return err
 		}
 	}
@@ -731,7 +740,7 @@ func (s *c22Sys) materialise() {
 		s.modelStep(st, op, false)
 	}
 	st.dead = nil
-	if err := s.in.check(st, true, &stats); err != nil {
+	if err := s.in.check(st, true, false, &stats); err != nil {
 		s.err = fmt.Errorf("prepared base: %v", err)
 		return
 	}
@@ -742,7 +751,7 @@ func (s *c22Sys) materialise() {
 			return
 		}
 		s.modelStep(st, op, true)
-		if err := s.in.check(st, true, &stats); err != nil {
+		if err := s.in.check(st, true, false, &stats); err != nil {
 			s.err = fmt.Errorf("replay divergence at prefix op %s: %v", s.sh.names[i], err)
 			return
 		}
@@ -767,7 +776,7 @@ func (s *c22Sys) Apply(i int) error {
 	s.modelStep(s.stack, op, true)
 	s.trace = append(s.trace, i)
 	var st c22Stats
-	err := s.in.check(s.stack, false, &st)
+	err := s.in.check(s.stack, false, op < 0 || len(s.trace) == 1, &st)
 	sh := s.sh
 	sh.mu.Lock()
 	switch op {
@@ -858,6 +867,11 @@ func TestVerif_C22(t *testing.T) {
 			for k, v := range sh.counts {
 				r.OutcomeN(p.cfg.Name+"/"+k, v)
 			}
+			var tr int64
+			for _, v := range sh.counts {
+				tr += v
+			}
+			r.OutcomeN(p.cfg.Name+"/transitions", tr)
 			r.OutcomeN(p.cfg.Name+"/iterator runs", int64(sh.st.iterators))
 			r.OutcomeN(p.cfg.Name+"/entries yielded", int64(sh.st.entries))
 			var shapes []string
